@@ -24,7 +24,9 @@ Traces == JsonDeserialize(IOEnv.TRACE_FILE)
 VARIABLES tid, phase
 Same(a, b) == a.alg = b.alg /\ a.cfg = b.cfg /\ a.o = b.o /\ a.kp = b.kp
 BaseIdx(evs, e) == { j \in 1..Len(evs) : evs[j].var = "base" /\ Same(evs[j], evs[e]) }
-Val(ev) == Value(ev.o, ev.kp, ev.sums)
+\* multifit may return fewer bins than requested: the missing bins are empty
+Padded(ev) == IF ev.k > Len(ev.sums) THEN ev.sums \o [j \in 1..(ev.k - Len(ev.sums)) |-> 0] ELSE ev.sums
+Val(ev) == Value(ev.o, ev.kp, Padded(ev))
 Scaled(s, f) == [i \in 1..Len(s) |-> s[i] * f]
 EvFails(evs, e) ==
    LET ev == evs[e]
